@@ -41,6 +41,8 @@ type spaceSpec struct {
 	// finiteOnShort keeps only grammars whose derivation-tree sets are finite on the inputs "" and "a"
 	// (no epsilon cycles): a cheap filter that removes the explosively ambiguous part of a deep space
 	finiteOnShort bool
+	// noSymmetryCut: also run the grammars whose first terminal is b (self-test of the a<->b symmetry argument)
+	noSymmetryCut bool
 	// noSubsets: build the shared sub-parsers exactly as the space says (no enumeration of memoization subsets)
 	noSubsets bool
 }
@@ -173,7 +175,9 @@ func eachGrammar(env *explore.Env, res *explore.Result, specs []spaceSpec, seeds
 			if !env.Mine(idx) {
 				return
 			}
-			if g.FirstTerminal() == 'b' {
+			if g.FirstTerminal() == 'b' && s.noSymmetryCut {
+				res.Add("grammars_run_despite_symmetry_selftest", 1)
+			} else if g.FirstTerminal() == 'b' {
 				// a<->b symmetry: the input set is closed under the swap and every
 				// combinator is equivariant, so the mirrored grammar is covered.
 				res.Add("grammars_skipped_by_symmetry", 1)
